@@ -369,6 +369,10 @@ def run(ctx):
     ctx.rule("R19.x", "who may move the clock: `Time._time` is written only by the constructor, __call__, __next__, __iadd__, __isub__ and the restore in __exit__ (frozen table, one reason each) -- "
                       "nothing that runs as a side effect of restoring the clock's parameters", floor=5)
     who_moves_the_clock(ctx, "R19.x")
+    ctx.rule("R19.i", "the clock is rebound, never mutated in place: no method of Time applies an augmented assignment to self._time (the saved and cached time objects would move with it)", floor=1)
+    clock_is_rebound_not_mutated(ctx, "R19.i")
+    ctx.rule("R19.n", "reads never force a draw: only the explicit forcing API (_force, force_new_dynamic_value) passes a `force` that can be true to _produce_value", floor=1)
+    reads_never_force_a_draw(ctx, "R19.n")
     from checks.c13 import value_reporters_agree
     value_reporters_agree(ctx, "R19.v")
     from checks.shared import dynamic_set_model
@@ -544,3 +548,51 @@ def who_moves_the_clock(ctx, rule):
                                   "of `until` / `timestep`) fires while __exit__ restores those parameters AFTER the time and overwrites the restored time: leaving a time context no longer "
                                   "restores the time exactly" % (name, norm(st)[:60]), key="param.parameters.Time.%s::moves-the-clock" % name,
                      input="t(20); with t: t.until = 5 ...  -> after the block t() != 20")
+
+
+def clock_is_rebound_not_mutated(ctx, rule):
+    """`Time.__enter__` saves the time OBJECT, and Dynamic caches the time object a value was produced at.  Every method of
+    Time that moves the clock REBINDS `self._time` (`self._time = self._time + dt`); an augmented assignment
+    (`self._time += dt`) mutates the object in place when the time type is mutable, and with it every saved / cached
+    reference: leaving a context no longer restores the time, and a cached value never looks out of date again."""
+    cls = ctx.repo.cls("param.parameters.Time")
+    n, bad = 0, []
+    for name, fs in cls.methods.items():
+        for g in fs:
+            selfn = g.params[0] if g.params else "self"
+            for st in ast.walk(g.node):
+                if isinstance(st, ast.AugAssign) and isinstance(st.target, ast.Attribute) and st.target.attr == "_time" and norm(st.target.value) == selfn:
+                    bad.append((g, st))
+                if isinstance(st, ast.Assign) and any(isinstance(t, ast.Attribute) and t.attr == "_time" and norm(t.value) == selfn for t in st.targets):
+                    n += 1
+    ctx.require(n + len(bad) >= 4, "fewer than 4 assignments of self._time in Time (%d)" % (n + len(bad)))
+    if bad:
+        g, st = bad[0]
+        ctx.fail(rule, g, st, "Time.%s moves the clock with `%s`: for a mutable time type that mutates the time object in place -- the object __enter__ saved and the one Dynamic cached as "
+                              "`_Dynamic_time` are that very object, so the context exit restores nothing and the cached value is served at every later time" % (g.name, norm(st)),
+                 key="param.parameters.Time.%s::clock-mutated-in-place" % g.name, input="Time(time_type=<a mutable number type>): with t: t += 1 ...; t() is not restored")
+    else:
+        ctx.ok(rule, ctx.repo.func("param.parameters.Time.__iadd__"), None, "every method of Time rebinds self._time (%d assignments), none mutates it in place" % n)
+
+
+def reads_never_force_a_draw(ctx, rule):
+    """Reading a time-dependent dynamic parameter twice at the same time returns the same value: `_produce_value` draws a new
+    value only when the time moved -- or when it is FORCED.  Forcing is reserved to the explicit API (`_force`,
+    `Parameters.force_new_dynamic_value`): no other caller passes a `force` that can be true (the attribute read
+    `Dynamic.__get__` in particular)."""
+    ALLOWED = {"_force", "_produce_value", "force_new_dynamic_value"}
+    n, bad = 0, []
+    for g in ctx.repo.all_funcs("param"):
+        for c in ast.walk(g.node):
+            if isinstance(c, ast.Call) and isinstance(c.func, ast.Attribute) and c.func.attr == "_produce_value":
+                n += 1
+                forced = [k.value for k in c.keywords if k.arg == "force"] + list(c.args[1:2])
+                if g.name not in ALLOWED and any(not (isinstance(v, ast.Constant) and v.value is False) for v in forced):
+                    bad.append((g, c))
+    ctx.require(n >= 2, "fewer than 2 calls of _produce_value found (%d)" % n)
+    if bad:
+        g, c = bad[0]
+        ctx.fail(rule, g, c, "%s calls `%s`: a read that can force a new draw -- repeated reads at the same time return different values (and inspect_value reports whichever came last)" % (
+            g.qualname.split(".", 2)[-1], norm(c)[:60]), key="%s::forced-read" % g.qualname, input="Dynamic.time_dependent = True; P.x; P.x  (class-level reads of a seeded UniformRandom)")
+    else:
+        ctx.ok(rule, ctx.repo.func("param.parameters.Dynamic.__get__"), None, "only the explicit forcing API passes force to _produce_value (%d call sites)" % n)
